@@ -168,7 +168,7 @@ def generate(rng, cfg):
             a["k"] = _pick_key(rng, model, rng.random() < 0.4)
             a["v"] = val
         elif op == "update":
-            a["form"] = rng.choice(["dict", "pairs", "kwargs", "gen", "same", "dict+kwargs"])
+            a["form"] = rng.choice(["dict", "pairs", "kwargs", "gen", "same", "dict+kwargs", "proxy", "userdict"])
             a["items"] = _pairs(rng, val, strs_only=a["form"] == "kwargs")
             a["kw"] = _pairs(rng, val + 50, n=rng.randint(1, 2), strs_only=True) if a["form"] == "dict+kwargs" else []
         elif op == "update_failing":
@@ -224,7 +224,7 @@ def _m_update(model, items):
         model[norm(k)] = v
 
 
-DICT_FORMS = ("mapping", "dict", "kwargs", "ordered", "mapping+kwargs", "dict+kwargs")
+DICT_FORMS = ("mapping", "dict", "kwargs", "ordered", "mapping+kwargs", "dict+kwargs", "proxy", "userdict")
 
 
 def effective(form, items):
@@ -590,6 +590,12 @@ def _apply(d, cls, op, a):
             d.update(**OrderedDict(pairs))
         elif form == "gen":
             d.update(p for p in pairs)
+        elif form == "proxy":
+            import types
+            d.update(types.MappingProxyType(OrderedDict(pairs)))     # a mapping that is not a dict
+        elif form == "userdict":
+            import collections
+            d.update(collections.UserDict(OrderedDict(pairs)))
         elif form == "same":
             d.update(cls(pairs))
         elif form == "dict+kwargs":
